@@ -4,7 +4,15 @@ package prng
 
 type R struct{ s uint64 }
 
-func New(seed uint64) *R { return &R{s: seed*0x9E3779B97F4A7C15 + 0x1234567} }
+// New derives the initial state by hashing the seed (splitmix64 finalizer), so that the
+// streams of consecutive seeds are unrelated (a state of seed*golden+c made seed k+1 the stream of
+// seed k shifted by one draw).
+func New(seed uint64) *R {
+	z := seed + 0x9E3779B97F4A7C15
+	z = (z ^ (z >> 30)) * 0xBF58476D1CE4E5B9
+	z = (z ^ (z >> 27)) * 0x94D049BB133111EB
+	return &R{s: z ^ (z >> 31)}
+}
 
 func (r *R) U64() uint64 {
 	r.s += 0x9E3779B97F4A7C15
